@@ -156,6 +156,15 @@ def gen_project(rnd):
                 else:
                     L.append(f"print('c{ci}', {k}, [{call}, {call}])")
                     feats.add("two-calls-on-one-line")
+        # call sites inside functions: one host without and one with locals spelled like the body's locals,
+        # with IDENTICAL call text (the generated definition must not be shared between them)
+        hargs = ", ".join("v" for p in params if "=" not in p)
+        hcall = f"{tgt}({hargs})"
+        if body_shape not in ("no-return", "two-statements-no-return", "multi-return"):
+            L += ["", "def host_plain(v):", f"    return {hcall}", "", "def host_clash(v):", "    t = 100", "    u = 7",
+                  "    n = 5", f"    r = {hcall}", "    return r + t + u + n", "",
+                  f"print('c{ci}', 'hosts', host_plain(3), host_clash(3))"]
+            feats.add("call-in-function-host")
         L.append(f"print('c{ci}', 'v', {vc} + 1, {vc})")
         L.append("print('shared', __import__('lib').shared, n, m)")
         files[cname] = "\n".join(L) + "\n"
